@@ -10,8 +10,10 @@ pub mod c08;
 pub mod c09;
 pub mod c10;
 pub mod c11;
+pub mod c12;
 pub mod c13;
 pub mod c14;
+pub mod c15;
 pub mod c20;
 
 use crate::runner::{replay_prop, run_prop, Ctx};
@@ -38,8 +40,10 @@ pub fn dispatch(id: &str, ctx: &Ctx, replay: Option<&str>) -> i32 {
     "C09" => go!(c09::C09, ctx, replay),
     "C10" => go!(c10::C10, ctx, replay),
     "C11" => go!(c11::C11, ctx, replay),
+    "C12" => go!(c12::C12, ctx, replay),
     "C13" => go!(c13::C13, ctx, replay),
     "C14" => go!(c14::C14, ctx, replay),
+    "C15" => go!(c15::C15, ctx, replay),
     "C20" => go!(c20::C20, ctx, replay),
     _ => {
       eprintln!("unknown property {id}");
